@@ -139,6 +139,11 @@ func (c *clientFile) xattrWalkRead(attr string) ([]byte, error) {
 	if rxattrwalk.Size == 0 {
 		return []byte{}, nil
 	}
+	// The size comes from the server; do not let it make us allocate
+	// without bound. No server-side xattr buffer exceeds maximumLength.
+	if rxattrwalk.Size > uint64(maximumLength) {
+		return nil, linux.E2BIG
+	}
 	buf := make([]byte, rxattrwalk.Size)
 	n, err := xattrFile.ReadAt(buf, 0)
 	if err != nil && !errors.Is(err, io.EOF) {
